@@ -87,7 +87,27 @@ def make_case(seed):
     d = gen.Diff(secs)
     mode = 'pipe'
     W = meta.get('width', 80)
+    # input coloured by the producer in other than git's default red/green (git diff --color-moved, a custom palette): delta
+    # keeps such lines as they are ("raw" lines), on another path through the painters. The colours used here are the
+    # reserved ones of the same line kinds, so that the rows are classified as usual
+    meta['raw_colored'] = (not meta.get('markers')) and rng.random() < 0.2
     return d, opts, meta, view, mode, W
+
+
+def input_bytes(d, meta, seed):
+    if not meta.get('raw_colored'):
+        return d.text().encode()
+    rng = engine.item_rng(engine.stable_hash((seed, 'c05-raw')))
+
+    def bg(name):
+        h = gen.TAGS[name]
+        return '\x1b[48;2;%d;%d;%dm' % (int(h[1:3], 16), int(h[3:5], 16), int(h[5:7], 16))
+    out = []
+    for role, l in d.role_lines():
+        if role == 'hunk' and l[:1] in '-+' and l[1:].strip() and rng.random() < 0.6:      # (an empty raw line has no cell that shows its kind)
+            l = bg('minus' if l[0] == '-' else 'plus') + l + '\x1b[m'
+        out.append(l)
+    return ('\n'.join(out) + '\n').encode()
 
 
 def expected_fields(order, kind, old, new):
@@ -252,14 +272,14 @@ def check_sbs(d, meta, W, out, counters):
 def run_item(item):
     _, seed = item
     d, opts, meta, view, mode, W = make_case(seed)
-    res = runner.run_delta(gen.to_args(opts), d.text().encode(), mode=mode)
+    res = runner.run_delta(gen.to_args(opts), input_bytes(d, meta, seed), mode=mode)
     c = crash_outcome(res, ID)
     if c is not None:
         return c
     if res.rc != 0:
         return inconclusive('exit %d: %s' % (res.rc, res.err[:120]))
     counters = {'numbers_compared': 0, 'blank_fields_checked': 0, 'hunk_header_numbers': 0, 'hunk_header_paths': 0}
-    sets = {'views': [view], 'format_classes': [meta['fmt_class']], 'option_classes': meta['classes'],
+    sets = {'views': [view], 'format_classes': [meta['fmt_class']], 'option_classes': meta['classes'] + (['raw-colored-input'] if meta.get('raw_colored') else []),
             'starts': sorted({str(h.new_start) for s in d.sections for h in s.hunks})[:6]}
     if view == 'sbs':
         bad = check_sbs(d, meta, W, res.out, counters)
